@@ -3,6 +3,7 @@ package main
 import (
 	"encoding/json"
 	"fmt"
+	"runtime"
 	"sort"
 	"strings"
 	"time"
@@ -70,14 +71,20 @@ func c02Drive(b *c02Built, in c02Input) (rec *c02Rec, base *c02Store, done []c02
 				}
 				done = append(done, c02Op{K: "hdr", N: len(hs)})
 			case "blk":
-				i := bc.BlockHeight() + 1
-				if i > top {
-					continue
+				cnt := 0
+				for j := 0; j < max(1, op.N); j++ {
+					i := bc.BlockHeight() + 1
+					if i > top {
+						break
+					}
+					if err := bc.AddBlock(b.Blocks[i]); err != nil {
+						panic(fmt.Sprintf("AddBlock %d: %v", i, err))
+					}
+					cnt++
 				}
-				if err := bc.AddBlock(b.Blocks[i]); err != nil {
-					panic(fmt.Sprintf("AddBlock %d: %v", i, err))
+				if cnt > 0 {
+					done = append(done, c02Op{K: "blk", N: cnt})
 				}
-				done = append(done, op)
 			case "flush":
 				if _, err := bc.VerifPersist(); err != nil {
 					panic("persist: " + err.Error())
@@ -109,6 +116,9 @@ type c02Recovered struct {
 type c02Viol func(class, note string, k int)
 
 var c02CrashPoints int
+
+// c02FeedMax limits how many of the remaining blocks a recovered node is fed (0 = all).
+var c02FeedMax uint32
 
 // c02CheckNode: the node must be at a height h <= maxAccepted (== wantH when wantH >= 0), equal to the
 // reference at h, and must accept the remaining blocks with identical roots.
@@ -161,6 +171,10 @@ func c02CheckNode(b *c02Built, bc *core.Blockchain, st storage.Store, cfg c02Cfg
 		}
 	}
 	// feed the rest
+	if c02FeedMax > 0 && top > h+c02FeedMax {
+		top = h + c02FeedMax
+	}
+	full := top == uint32(len(b.Blocks)-1)
 	for i := h + 1; i <= top; i++ {
 		var err error
 		if m := c02Try(func() { err = bc.AddBlock(b.Blocks[i]) }); m != "" {
@@ -178,6 +192,9 @@ func c02CheckNode(b *c02Built, bc *core.Blockchain, st storage.Store, cfg c02Cfg
 			viol("later-root-differs", fmt.Sprintf("recovered at %d, state root of block %d differs from the uninterrupted node (%v)", h, i, err), k)
 			return
 		}
+	}
+	if !full || b.Snaps[top].Dump == nil {
+		return
 	}
 	if d := c02StorageDiff(bc, b.Snaps[top].Dump); d != "" {
 		viol("final-storage-differs", fmt.Sprintf("recovered at %d, final contract storage differs: %s", h, d), k)
@@ -471,7 +488,9 @@ func c02CoqOps(ops []c02Op) string {
 		case "hdr":
 			xs = append(xs, fmt.Sprintf("OHdr %d", o.N))
 		case "blk":
-			xs = append(xs, "OBlk")
+			for j := 0; j < max(1, o.N); j++ {
+				xs = append(xs, "OBlk")
+			}
 		case "flush":
 			xs = append(xs, "OFlush")
 		case "flushgc":
@@ -794,6 +813,24 @@ func c02RunJump(co *caseOut, in c02Input) error {
 	if nb <= 0 {
 		nb = 4
 	}
+	stopRace := make(chan struct{})
+	raceDone := make(chan struct{})
+	if in.Cfg.Race {
+		go func() {
+			defer close(raceDone)
+			for {
+				select {
+				case <-stopRace:
+					return
+				default:
+				}
+				bc.VerifPersist()
+				runtime.Gosched()
+			}
+		}()
+	} else {
+		close(raceDone)
+	}
 	var derr error
 	m := c02Try(func() {
 		derr = src.drive(bc, nb, func(step int) error {
@@ -804,6 +841,8 @@ func c02RunJump(co *caseOut, in c02Input) error {
 			return nil
 		})
 	})
+	close(stopRace)
+	<-raceDone
 	if m != "" || derr != nil {
 		bc.Close()
 		viol("victim-sync", c02Short(fmt.Sprint(m, derr)), -1)
@@ -956,6 +995,8 @@ func c02RunCase(co *caseOut, kind string, in c02Input) error {
 		return c02RunReset(co, in)
 	case "jump":
 		return c02RunJump(co, in)
+	case "longgc":
+		return c02RunLongGC(co, in)
 	}
 	return fmt.Errorf("unknown case kind %q", kind)
 }
@@ -991,6 +1032,33 @@ func runC02(args []string) error {
 		return co.finish()
 	}
 	r := newRng(cf.seed)
+	// one long chain: beyond one page of header hashes (quick), beyond two (thorough)
+	{
+		n := c02PS + 14
+		if cf.tier == "thorough" {
+			n = 2*c02PS + 16
+		}
+		if err := c02RunCase(co, "longgc", c02GenLong(r, n)); err != nil {
+			return fmt.Errorf("long chain: %w", err)
+		}
+	}
+	// state synchronisation with a second goroutine flushing continuously: batch boundaries fall between
+	// the single Puts of one AddMPTNodes call (H1); not reproducible boundary by boundary, so several runs
+	{
+		races := 2
+		if cf.tier == "thorough" {
+			races = 20
+		}
+		for i := 0; i < races; i++ {
+			_, in := c02Gen(r, 3)
+			in.Cfg.Race = true
+			in.NodeBat = 200
+			in.Ops = nil
+			if err := c02RunCase(co, "jump", in); err != nil {
+				return fmt.Errorf("racing synchronisation %d: %w", i, err)
+			}
+		}
+	}
 	for i := 0; i < cf.n; i++ {
 		kind, in := c02Gen(r, i)
 		if err := c02RunCase(co, kind, in); err != nil {
@@ -999,4 +1067,19 @@ func runC02(args []string) error {
 	}
 	co.extra["x_crash_points"] = c02CrashPoints
 	return co.finish()
+}
+
+func c02Summary(b c02Batch) string {
+	cnt := map[string]int{}
+	for _, m := range []map[string][]byte{b.Mem, b.Stor} {
+		for k, v := range m {
+			c := c02Class(k, v)
+			if v == nil {
+				c = "-" + c02Class(k, []byte{0, 0, 0, 0, 0, 0})
+			}
+			cnt[c]++
+		}
+	}
+	j, _ := json.Marshal(cnt)
+	return b.Kind + " stage=" + c02StageOf(b) + " " + string(j)
 }
